@@ -158,17 +158,28 @@ def renumber(node, f):
     return out
 
 
-def pairing(nodes, i0, j0):
-    """candidate simulation: pair the graphs reachable from i0 / j0 position by position (verified by the driver)"""
-    rho, todo = {}, [(i0, j0)]
+def _pairing1(nodes, i0, j0):
+    rho, todo, conflict = {}, [(i0, j0)], False
     while todo:
         i, j = todo.pop()
         if i in rho:
+            conflict = conflict or rho[i] != j
             continue
         rho[i] = j
         ci, cj = node_children(nodes[i]), node_children(nodes[j])
         todo.extend(zip(ci, cj))
-    return [[i, j] for i, j in sorted(rho.items())]
+    return [[i, j] for i, j in sorted(rho.items())], conflict
+
+
+def pairing(nodes, i0, j0):
+    """candidate simulation (a FUNCTION on ids, possibly many-to-one: copies map to their original): pair the graphs
+    reachable from i0 / j0 position by position, in whichever direction is functional. Verified by the driver."""
+    p, conflict = _pairing1(nodes, i0, j0)
+    if conflict:
+        q, c2 = _pairing1(nodes, j0, i0)
+        if not c2:
+            return q
+    return p
 
 
 # ---------------------------------------------------------------------------------------------------
@@ -201,15 +212,15 @@ def sugar_forms(rng, a, b, c, stop):
     n = rng.choice([2, 3, 4])
     st, cur = _chain_plus([a] * n, "x")
     forms.append((f"mul_n:{n}", [["S", "*", a, n], ["X", "And", [a] * n]]))
-    forms.append((f"mul_n_plus:{n}", [["S", "*", a, n]] + st + [["X", "copy", cur]]))
+    forms.append((f"mul_n_plus:{n}", [["S", "*", a, n]] + st + [["X", "alias", cur]]))
     m = rng.choice([0, 1, 2, 3])
     k = rng.choice([1, 2, 3])
     ost, ocur = _opt_chain(a, k, "y")
     if m == 0:
-        spelled = ost + [["X", "copy", ocur]]
+        spelled = ost + [["X", "alias", ocur]]
     else:
         cst, ccur = _chain_plus([a] * m + [ocur], "z")
-        spelled = ost + cst + [["X", "copy", ccur]]
+        spelled = ost + cst + [["X", "alias", ccur]]
     forms.append((f"getitem_m_n:{m},{m + k}", [["S", "[]", a, [m, m + k]]] + spelled))
     forms.append(("star:[...]", [["S", "[...]", a], ["X", "ZeroOrMore", a]]))
     forms.append(("star:[0,...]", [["S", "[]", a, [0, None]], ["X", "ZeroOrMore", a]]))
@@ -259,6 +270,15 @@ def sugar_job(job):
     except RecursionError:
         out["skip"] = "recursion"
         return out
+    if "~And" in job["form"] or job["form"].startswith(("mul_n_plus", "getitem_m_n")):
+        # And([a, b, c]) / And([a]*n) is never flattened by streamline (only 2-element Ands are), a chain of + is: with
+        # an operand that is itself a flattenable And the two differ exactly as nested-vs-flat And do (registered
+        # finding nested_and_differs_from_flat; equality under flattenHyp is the business of flat_job)
+        for v in (job["operands"][:3] if "~And" in job["form"] else job["operands"][:1]):
+            o = b.env[v]
+            if isinstance(o, pp.And) and not o.parseAction and o.resultsName is None:
+                out["skip"] = "region:nested_and_differs_from_flat"
+                return out
     # structural tie: one table holding both graphs, candidate pairing, checked by the Lean driver
     try:
         nodes, (ri, rj), _, _ = gram.extract_multi(b, [S, X])
@@ -383,13 +403,18 @@ def flat_job(job):
     out = {"n": 0, "mism": [], "line": None}
     try:
         b = gram.build(pp, job["prog"])
-        N, F = gram.prepare(b, "N"), gram.prepare(b, "F")
+        N = gram.prepare(b, "N")
+        X = b.env["XN"]
+        if not (isinstance(X, pp.And) and X.exprs and len(N.exprs) >= 3):
+            return out
+        pos = [k for k, e in enumerate(N.exprs) if e is X][0]
+        # the flat sequence of the theorem: N's own list with X replaced by X's (streamlined) list
+        F = pp.And(list(N.exprs[:pos]) + list(X.exprs) + list(N.exprs[pos + 1:]))
+        F.streamline()
         if corr_parse.nullable_rep(pp, N) or corr_parse.nullable_rep(pp, F):
             return out
         nodes, (ri, rj), ids, _ = gram.extract_multi(b, [N, F])
-        X = b.env["XN"]
         kids = [ids[id(e)] for e in N.exprs]
-        pos = kids.index(ids[id(X)])
         out["line"] = dumps([Sym("c12flat"), nodes, kids[:pos], kids[pos], kids[pos + 1:]])[1:-1]
     except gram.Unsupported:
         return out
@@ -408,8 +433,12 @@ def flat_job(job):
 
 
 WITNESS_NESTED = dict(prog=[["a", "Literal", "a"], ["ls", "LineStart"], ["b", "Literal", "b"], ["c", "Literal", "c"],
-                            ["XN", "+", "ls", "b"], ["N", "And", ["a", "XN", "c"]], ["F", "And", ["a", "ls", "b", "c"]]],
+                            ["XN", "+", "ls", "b"], ["N", "And", ["a", "XN", "c"]]],
                       inputs=["a\nb c"])
+# And([x - y, b, c]) vs (x - y) + b + c: the error stop guards only the nested part
+WITNESS_NESTED_STOP = dict(prog=[["x", "Literal", "x"], ["y", "Literal", "y"], ["b", "Literal", "b"], ["c", "Literal", "c"],
+                                 ["XN", "-", "x", "y"], ["N", "And", ["XN", "b", "c"]]],
+                           inputs=["x y b d"])
 
 
 def gen_flat_jobs(ctx, n):
@@ -430,7 +459,7 @@ def gen_flat_jobs(ctx, n):
             outer_n, outer_f = ["XN", d, a], inner + [d, a]
         else:
             outer_n, outer_f = [a, d, "XN"], [a, d] + inner
-        sts = xn + [["N", "And", outer_n], ["F", "And", outer_f]]
+        sts = xn + [["N", "And", outer_n]]
         seq = " ".join if rng.random() < 0.5 else "\n".join
         inputs = [seq(pg.sample(v) for v in outer_f) for _ in range(3)] + [rng.choice([" ", "\n", ""]).join(pg.sample(v) for v in outer_f)]
         inputs += [gen.mutate(rng, inputs[0])]
@@ -465,8 +494,8 @@ def run_flatten(ctx, n_stream, n_flat):
     ctx.obligation("the real ParseExpression.streamline flattening == streamlineAnd/streamlineMF on the extracted table [%d tables]" % len(lines),
                    not bad, json.dumps(hist)[:300])
     # (2) nested vs flat on the real code where the driver says flattenHyp holds on the REAL flags
-    fj = [WITNESS_NESTED] + gen_flat_jobs(ctx, n_flat)
-    res = common.pmap(flat_job, fj) if len(fj) >= 64 else [flat_job(j) for j in fj]
+    fj = [WITNESS_NESTED, WITNESS_NESTED_STOP] + gen_flat_jobs(ctx, n_flat)
+    res = common.pmap(flat_job, fj)
     idx = [k for k, r in enumerate(res) if r["line"]]
     verd = ctx.driver.run_sharded([res[k]["line"] for k in idx]) if idx else []
     n, in_hyp, out_hyp, out_diff = 0, 0, 0, 0
@@ -483,12 +512,12 @@ def run_flatten(ctx, n_stream, n_flat):
             out_hyp += 1
             if r["mism"]:
                 out_diff += 1
-                if k == 0:  # the registered witness
+                if k < 2:  # the registered witnesses
                     m = r["mism"][0]
-                    ctx.fail_input("nested And != flat And (hypotheses of and_flatten do not hold: LineStart head)",
+                    ctx.fail_input("nested And != flat And (hypotheses of and_flatten do not hold: %s)" % ("LineStart head", "_ErrorStop inside")[k],
                                    {"prog": m["prog"], "input": m["input"], "kind": "flat-witness"}, m["flat"], m["nested"],
-                                   theorem="PP.Parse.and_flatten_fails_lineStart", signature="nested_and_preparse_differs",
-                                   how="harness.props.c12.flat_job")
+                                   theorem="PP.Parse.and_flatten_fails_lineStart / and_flatten_fails_errorStop",
+                                   signature="nested_and_differs_from_flat", how="harness.props.c12.flat_job")
     ctx.count_cases("oracle:nested-vs-flat-And", n, distinct_keys=[json.dumps(j["prog"]) for j in fj],
                     outcomes={"hyp-holds": in_hyp, "hyp-fails(region of the registered finding)": out_hyp, "hyp-fails-and-differs": out_diff},
                     samples=[fj[1]] if len(fj) > 1 else [])
@@ -654,6 +683,46 @@ def pool_job(job):
         out["skip"] = "recursion"
         return out
 
+    def stale_savelist(e, seen):
+        """region of the registered finding streamline_recomputes_saveAsList: MatchFirst/Or.streamline recompute
+        saveAsList, and wrappers copy it at construction: the SHAPE of a named result (scalar vs list) of a wrapper
+        depends on whether the operand had been streamlined when the wrapper was built"""
+        if id(e) in seen:
+            return False
+        seen.add(id(e))
+        if isinstance(e, (pp.MatchFirst, pp.Or)) and e.exprs and bool(e.saveAsList) != any(x.saveAsList for x in e.exprs):
+            return True
+        if isinstance(e, (pp.MatchFirst, pp.Or)) and e.exprs and bool(e.skipWhitespace) != all(x.skipWhitespace for x in e.exprs):
+            stale_ws.append(1)
+        return any(stale_savelist(x, seen) for x in corr_parse._children(pp, e))
+
+    stale_ws = []
+
+    try:
+        seen_ = set()
+        names_region = any(stale_savelist(b0.env[v], seen_) for v in members)
+    except RecursionError:
+        names_region = True
+    if names_region:
+        out["region_names"] = 1
+    if stale_ws:
+        # same finding, the other recomputed attribute: skipWhitespace of a MatchFirst/Or after set_whitespace_chars()
+        out["skip"] = "region:streamline_recomputes_saveAsList(skipWhitespace)"
+        return out
+
+    def strip_names(fp):
+        if fp is None or not names_region:
+            return fp
+        res = []
+        for x in fp:
+            if x[0] == "ok":
+                res.append(x[:2])
+            elif x[0] in ("scan", "scan-exc"):
+                res.append([x[0], [m[:3] for m in x[1]]] + x[2:])
+            else:
+                res.append(x)
+        return res
+
     def run_schedule(order, uses):
         """uses: {statement index: [vars to parse with right after that statement]}"""
         early = {}
@@ -707,6 +776,7 @@ def pool_job(job):
         fps = [("A:creation-order", fa.get(v)), ("B:reverse-order", fb.get(v)), ("C:interleaved-final", fc.get(v))]
         if v in ec:
             fps.append(("C:right-after-creation", ec[v]))
+        fps = [(nm, strip_names(fp)) for nm, fp in fps]
         if any(fp is None for _, fp in fps):
             continue
         out["members"] += 1
@@ -721,13 +791,27 @@ def pool_job(job):
                                     "members": members, "first_step": first, "seed": job["seed"], "inputs": inputs})
                 break
     # a copy parses identically to its original (names: tokens only)
+    dflt = set(pp.ParserElement.DEFAULT_WHITE_CHARS)
+
+    def stale_white(e, seen):
+        """region of the registered finding copy_resets_whitechars: copy() re-installs the default whitespace set on an
+        element whose set was edited directly (LineStart, and whatever took its flags from one)"""
+        if id(e) in seen:
+            return False
+        seen.add(id(e))
+        if e.copyDefaultWhiteChars and set(e.whiteChars) != dflt:
+            return True
+        return any(stale_white(x, seen) for x in corr_parse._children(pp, e))
+
     for c, o, named in job["copies"]:
         fc_, fo_ = fa.get(c), fa.get(o)
-        if fc_ is None or fo_ is None:
+        if fc_ is None or fo_ is None or named:
+            # expr('name') is not claimed to parse like expr (Located / Combine group their tokens when named)
             continue
-        if named:
-            strip = lambda fp: [[x[0], x[1]] if x[0] == "ok" else ([x[0], [m[:3] for m in x[1]]] + x[2:] if x[0] in ("scan", "scan-exc") else x) for x in fp]
-            fc_, fo_ = strip(fc_), strip(fo_)
+        if stale_white(b0.env[o], set()):
+            out["region_copy"] = out.get("region_copy", 0) + 1
+            continue
+        fc_, fo_ = strip_names(fc_), strip_names(fo_)
         out["n"] += len(inputs)
         if fc_ != fo_:
             j = next(i for i in range(len(fo_)) if fc_[i] != fo_[i])
@@ -768,6 +852,8 @@ def run_pools(ctx, jobs, stream="oracle:pool-fingerprints"):
     mism = [m for r in res for m in r["mism"]]
     ctx.count_cases(stream, n, distinct_keys=[j["seed"] for j in jobs],
                     outcomes={"fingerprint-comparisons": n, "members": sum(r["members"] for r in res), "mismatch": len(mism),
+                              "jobs-compared-without-names(region streamline_recomputes_saveAsList)": sum(r.get("region_names", 0) for r in res),
+                              "copies-skipped(region copy_resets_whitechars)": sum(r.get("region_copy", 0) for r in res),
                               **{"skipped:" + k: v for k, v in skips.items()}},
                     samples=[{"prog": jobs[0]["prog"], "inputs": jobs[0]["inputs"][:3]}] if jobs else [])
     seen = set()
@@ -877,6 +963,28 @@ def witness_forward_copy(pp):
     return outcome(pp, F, " a"), outcome(pp, C, " a")
 
 
+def witness_copy_whitechars(pp):
+    """copy() re-installs DEFAULT_WHITE_CHARS on an expression whose whiteChars were edited in place (LineStart drops
+    '\\n' from its set but keeps copyDefaultWhiteChars): scan_string's pre-parser then skips differently"""
+    A = pp.LineStart() + "b"
+    C = A.copy()
+    s = "a\n\nb"
+    return scan_outcome(pp, A, s), scan_outcome(pp, C, s)
+
+
+def witness_savelist(pp):
+    """the shape of a named result of Opt(e) depends on whether e (a MatchFirst with an And alternative) had been
+    streamlined when Opt(e) was built"""
+    def mk():
+        return (pp.Word("a") + pp.Word("b")) | pp.LineEnd()
+    e = mk()
+    before = outcome(pp, pp.Opt(e)("n"), "\n")
+    e = mk()
+    outcome(pp, e, "a b")
+    after = outcome(pp, pp.Opt(e)("n"), "\n")
+    return before, after
+
+
 WITNESSES = [
     ("pending_skip_rewrites_shared_operand", witness_pending_skip,
      "x2 = e + 'd' with e = Literal('a') + (Literal('b') + ...) on 'a b zz d', fresh vs after x1 = e + 'c' was used"),
@@ -884,6 +992,10 @@ WITNESSES = [
      "R = OneOrMore(Word('za'), stop_on=Y), Y = Literal('a') + (LineStart() + Literal('b')), on 'z a\\nb', before vs after Y.parse_string"),
     ("forward_copy_before_assignment", witness_forward_copy,
      "F = Forward(); C = F.copy(); F <<= Word('a').leave_whitespace(); F vs C on ' a'"),
+    ("streamline_recomputes_saveAsList", witness_savelist,
+     "e = (Word('a') + Word('b')) | LineEnd(); Opt(e)('n').parse_string('\\n').as_dict() built before vs after e.parse_string('a b')"),
+    ("copy_resets_whitechars", witness_copy_whitechars,
+     "A = LineStart() + 'b'; A.scan_string('a\\n\\nb') reports the match at 2, A.copy().scan_string at 3"),
 ]
 
 
